@@ -1,6 +1,7 @@
 package rules
 
 import (
+	"os"
 	"fmt"
 	"go/ast"
 	"go/constant"
@@ -160,7 +161,12 @@ func Enum(w *load.World, c *core.Collector) {
 			}
 			n++
 			key := "exhaustive:" + pre + "@" + k
-			if m := missing(fams[pre], have); len(m) > 0 {
+			if m := missing(fams[pre], have); len(m) > 0 && delegated(w, origins[k], func(g *ssa.Function) bool {
+				return len(missing(fams[pre], famSubset(fams[pre], byKey[load.FnKey(g)]))) == 0
+			}) {
+				// a sub-dispatcher: every caller is itself an exhaustive dispatcher that hands over a subset
+				c.Add("ENUM", key, core.OK, w.Position(origins[k].Pos()), "", props...)
+			} else if len(m) > 0 {
 				c.Add("ENUM", key, core.Violation, w.Position(origins[k].Pos()), fmt.Sprintf("%s dispatches on %s but has no branch for %v", k, pre, m), props...)
 			} else {
 				c.Add("ENUM", key, core.OK, w.Position(origins[k].Pos()), "", props...)
@@ -777,6 +783,8 @@ func guardedAtNormalized(f *ssa.Function, at *ssa.BasicBlock, ownerPath string, 
 					if s, ok := ssax.ConstString(pr[1]); ok && s == jsonName(st, idx) {
 						if tp, _ := ssax.Path(pr[0]); norm(tp) == norm(ownerPath)+".Type" {
 							matched = true
+						} else if prm, isP := peelToParam(pr[0]).(*ssa.Parameter); isP && tagParamOf(f, prm, ownerPath) {
+							matched = true
 						}
 					}
 				}
@@ -824,6 +832,9 @@ func Tagged(w *load.World, c *core.Collector) {
 					g = liftGuardParam(f, op, st, idx, 0)
 				}
 				key := fmt.Sprintf("deref:%s@%s", st.Field(idx).Name(), load.FnKey(f))
+				if os.Getenv("SEMA_DEBUG") != "" {
+					fmt.Fprintf(os.Stderr, "TAGGED %s op=%q g=%v at %s\n", key, op, g, w.At(in))
+				}
 				if g {
 					c.Add("TAGGED", key, core.OK, w.At(in), "", props...)
 				} else {
@@ -1383,4 +1394,124 @@ func liftGuardParam(f *ssa.Function, op string, st *types.Struct, idx int, depth
 		}
 	}
 	return sites > 0
+}
+
+// staticCallSites: the static call sites of f in the module.
+func staticCallSites(w *load.World, f *ssa.Function) []ssa.CallInstruction {
+	var out []ssa.CallInstruction
+	for _, g := range w.Fns {
+		if !load.InMod(g) {
+			continue
+		}
+		for _, b := range g.Blocks {
+			for _, in := range b.Instrs {
+				if ci, ok := in.(ssa.CallInstruction); ok && ci.Common().StaticCallee() == f {
+					out = append(out, ci)
+				}
+			}
+		}
+	}
+	return out
+}
+
+// delegated: f is an unexported function whose only uses are static calls from functions
+// of its package that satisfy ok (a sub-dispatcher serving an exhaustive dispatcher).
+func delegated(w *load.World, f *ssa.Function, ok func(*ssa.Function) bool) bool {
+	if f == nil || f.Object() == nil || f.Object().Exported() || f.Signature.Recv() != nil && false {
+		return false
+	}
+	sites := staticCallSites(w, f)
+	if len(sites) == 0 {
+		return false
+	}
+	for _, s := range sites {
+		g := s.Parent()
+		if load.PkgPath(g) != load.PkgPath(f) || !ok(g) {
+			return false
+		}
+	}
+	// the function is not used as a value anywhere
+	for _, g := range w.Fns {
+		if !load.InMod(g) {
+			continue
+		}
+		for _, b := range g.Blocks {
+			for _, in := range b.Instrs {
+				for _, op := range in.Operands(nil) {
+					if *op == ssa.Value(f) {
+						if ci, isCall := in.(ssa.CallInstruction); isCall && ci.Common().Value == ssa.Value(f) {
+							continue
+						}
+						return false
+					}
+				}
+			}
+		}
+	}
+	return true
+}
+
+// tagParamOf: the parameter tag of f carries the type tag of the owner (another parameter
+// of f, or something reached from one) at every static call site: "helper(itype, params)"
+// called with (params.Type, params).
+func tagParamOf(f *ssa.Function, tag *ssa.Parameter, ownerPath string) bool {
+	if taggedWorld == nil {
+		return false
+	}
+	norm := func(s string) string { return strings.ReplaceAll(s, "*", "") }
+	root, rest := ownerPath, ""
+	for i, ch := range ownerPath {
+		if ch == '.' || ch == '*' {
+			root, rest = ownerPath[:i], ownerPath[i:]
+			break
+		}
+	}
+	if strings.HasPrefix(root, "alloc:") {
+		// a parameter taken by value lives in a cell named after it
+		root = strings.TrimPrefix(root, "alloc:")
+		if i := strings.Index(root, "@"); i >= 0 {
+			root = root[:i]
+		}
+	}
+	oi, ti := -1, -1
+	for i, p := range f.Params {
+		if p.Name() == root {
+			oi = i
+		}
+		if p == tag {
+			ti = i
+		}
+	}
+	if oi < 0 || ti < 0 || oi == ti {
+		return false
+	}
+	sites := staticCallSites(taggedWorld, f)
+	for _, ci := range sites {
+		args := ci.Common().Args
+		if oi >= len(args) || ti >= len(args) {
+			return false
+		}
+		ap, _ := ssax.Path(args[oi])
+		tp, _ := ssax.Path(args[ti])
+		if os.Getenv("SEMA_DEBUG") != "" {
+			fmt.Fprintf(os.Stderr, "tagParamOf %s owner=%q ap=%q tp=%q\n", f.Name(), ownerPath, ap, tp)
+		}
+		cands := []string{ap}
+		if ld, ok := args[oi].(*ssa.UnOp); ok && ld.Op == token.MUL {
+			if al, isAl := ld.X.(*ssa.Alloc); isAl {
+				// the variable itself (a cell): the tag is read from it
+				cands = append(cands, fmt.Sprintf("alloc:%s@%d", al.Comment, al.Pos()))
+			}
+		}
+		match := false
+		for _, cand := range cands {
+			if cand != "" && norm(tp) == norm(cand+rest)+".Type" {
+				match = true
+			}
+		}
+		if !match {
+			return false
+		}
+	}
+	return len(sites) > 0
 }
